@@ -331,6 +331,36 @@ package risc
 //@   loop 0: invariant forall j :: 0 <= j && j < len(hazards) ==> isRAW(ctx, runner, hazards[j])
 //@   loop 0: invariant len(hazards) == 0 ==> (forall i :: 0 <= i && i < _idx0 ==> !isRAW(ctx, runner, _range0[i]))
 
+// ---------------------------------------------------------------- instruction classification (C03, C12)
+// The pipelines arm the branch-unit check (and hence the flush of wrong-path
+// work) only for the types these predicates accept, so they must cover every
+// type whose Run can change the pc (lemmas pcChangeIsBranch_* below).
+
+//@ func (InstructionType).IsConditionalBranch
+//@   mode bv
+//@   ensures result == (ins == Beq || ins == Beqz || ins == Bne || ins == Bnez || ins == Blt || ins == Bltu || ins == Ble || ins == Bge || ins == Bgeu)
+//@   assigns nothing
+
+//@ func (InstructionType).IsUnconditionalBranch
+//@   mode bv
+//@   ensures result == (ins == J || ins == Jal || ins == Jalr)
+//@   assigns nothing
+
+//@ func (InstructionType).IsBranch
+//@   mode bv
+//@   ensures result == (ins == J || ins == Jal || ins == Jalr || ins == Beq || ins == Beqz || ins == Bne || ins == Bnez || ins == Blt || ins == Bltu || ins == Ble || ins == Bge || ins == Bgeu)
+//@   assigns nothing
+
+//@ func (InstructionType).IsMemoryRead
+//@   mode bv
+//@   ensures result == (ins == Lb || ins == Lh || ins == Lw)
+//@   assigns nothing
+
+//@ func (InstructionType).IsMemoryWrite
+//@   mode bv
+//@   ensures result == (ins == Sb || ins == Sh || ins == Sw)
+//@   assigns nothing
+
 // ---- generated by /verif/contracts/gen_risc.py from the RV32IM table ----
 
 //@ mode bv
@@ -1701,3 +1731,29 @@ package risc
 //@ func (*xori).MemoryWrite
 //@   ensures len(result) == 0
 //@   assigns nothing
+
+//@ -- classification completeness: generated from the same table as the Run contracts
+//@ lemma pcChangeIsBranch_beq(): Beq.IsBranch()
+//@ lemma conditional_beq(): Beq.IsConditionalBranch() && !Beq.IsUnconditionalBranch()
+//@ lemma pcChangeIsBranch_beqz(): Beqz.IsBranch()
+//@ lemma conditional_beqz(): Beqz.IsConditionalBranch() && !Beqz.IsUnconditionalBranch()
+//@ lemma pcChangeIsBranch_bge(): Bge.IsBranch()
+//@ lemma conditional_bge(): Bge.IsConditionalBranch() && !Bge.IsUnconditionalBranch()
+//@ lemma pcChangeIsBranch_bgeu(): Bgeu.IsBranch()
+//@ lemma conditional_bgeu(): Bgeu.IsConditionalBranch() && !Bgeu.IsUnconditionalBranch()
+//@ lemma pcChangeIsBranch_ble(): Ble.IsBranch()
+//@ lemma conditional_ble(): Ble.IsConditionalBranch() && !Ble.IsUnconditionalBranch()
+//@ lemma pcChangeIsBranch_blt(): Blt.IsBranch()
+//@ lemma conditional_blt(): Blt.IsConditionalBranch() && !Blt.IsUnconditionalBranch()
+//@ lemma pcChangeIsBranch_bltu(): Bltu.IsBranch()
+//@ lemma conditional_bltu(): Bltu.IsConditionalBranch() && !Bltu.IsUnconditionalBranch()
+//@ lemma pcChangeIsBranch_bne(): Bne.IsBranch()
+//@ lemma conditional_bne(): Bne.IsConditionalBranch() && !Bne.IsUnconditionalBranch()
+//@ lemma pcChangeIsBranch_bnez(): Bnez.IsBranch()
+//@ lemma conditional_bnez(): Bnez.IsConditionalBranch() && !Bnez.IsUnconditionalBranch()
+//@ lemma pcChangeIsBranch_j(): J.IsBranch()
+//@ lemma unconditional_j(): J.IsUnconditionalBranch() && !J.IsConditionalBranch()
+//@ lemma pcChangeIsBranch_jal(): Jal.IsBranch()
+//@ lemma unconditional_jal(): Jal.IsUnconditionalBranch() && !Jal.IsConditionalBranch()
+//@ lemma pcChangeIsBranch_jalr(): Jalr.IsBranch()
+//@ lemma unconditional_jalr(): Jalr.IsUnconditionalBranch() && !Jalr.IsConditionalBranch()
